@@ -211,6 +211,8 @@ fn source_block_encoding_plan_cache() -> &'static Mutex<SourceBlockEncodingPlanC
 
 #[cfg(feature = "std")]
 fn get_or_generate_source_block_encoding_plan(symbol_count: u16) -> Arc<SourceBlockEncodingPlan> {
+    #[cfg(feature = "verif")]
+    verif_cache::yield_point(0, symbol_count);
     {
         let cache = source_block_encoding_plan_cache();
         let guard = cache
@@ -221,7 +223,11 @@ fn get_or_generate_source_block_encoding_plan(symbol_count: u16) -> Arc<SourceBl
         }
     }
 
+    #[cfg(feature = "verif")]
+    verif_cache::yield_point(1, symbol_count);
     let generated = Arc::new(SourceBlockEncodingPlan::generate(symbol_count));
+    #[cfg(feature = "verif")]
+    verif_cache::yield_point(2, symbol_count);
     let cache = source_block_encoding_plan_cache();
     let mut guard = cache
         .lock()
@@ -295,6 +301,8 @@ impl SourceBlockEncoder {
                 "source_symbols.len() exceeds u16::MAX"
             );
             let plan = get_or_generate_source_block_encoding_plan(source_symbols.len() as u16);
+            #[cfg(feature = "verif")]
+            verif_cache::yield_point(3, source_symbols.len() as u16);
             let intermediate_symbols = gen_intermediate_symbols_with_plan(
                 &source_symbols,
                 config.symbol_size() as usize,
@@ -484,6 +492,113 @@ fn enc_into(
             b1 = (b1 + a1) % p1;
         }
         add_assign(dest, intermediate_symbols.get((w + b1) as usize));
+    }
+}
+
+// Verification hooks: scheduling points around, and read-only views of, the shared plan cache.
+#[cfg(all(feature = "verif", feature = "std"))]
+pub mod verif_cache {
+    use super::*;
+    use std::sync::RwLock;
+
+    /// Callback invoked (outside the cache lock) at: 0 = before the lookup critical section,
+    /// 1 = after a lookup miss, 2 = after plan generation and before the insert critical section,
+    /// 3 = after the plan has been obtained (hit, insert, or lost race).
+    pub type YieldFn = fn(point: u8, symbol_count: u16);
+
+    static YIELD: RwLock<Option<YieldFn>> = RwLock::new(None);
+
+    pub fn set_yield(callback: Option<YieldFn>) {
+        *YIELD.write().unwrap_or_else(|p| p.into_inner()) = callback;
+    }
+
+    pub(super) fn yield_point(point: u8, symbol_count: u16) {
+        let callback = *YIELD.read().unwrap_or_else(|p| p.into_inner());
+        if let Some(callback) = callback {
+            callback(point, symbol_count);
+        }
+    }
+
+    pub const CAPACITY: usize = SOURCE_BLOCK_ENCODING_PLAN_CACHE_CAPACITY;
+
+    /// (key, source symbol count of the plan stored under that key) for every cached plan,
+    /// sorted by key, and the insertion-order queue front to back.
+    pub fn snapshot() -> (Vec<(u16, u16)>, Vec<u16>, bool) {
+        let cache = source_block_encoding_plan_cache();
+        let poisoned = cache.is_poisoned();
+        let guard = cache.lock().unwrap_or_else(|p| p.into_inner());
+        let mut plans: Vec<(u16, u16)> = guard
+            .plans
+            .iter()
+            .map(|(k, v)| (*k, v.source_symbol_count))
+            .collect();
+        plans.sort_unstable();
+        let order: Vec<u16> = guard.insertion_order.iter().copied().collect();
+        (plans, order, poisoned)
+    }
+
+    pub fn clear() {
+        let cache = source_block_encoding_plan_cache();
+        let mut guard = cache.lock().unwrap_or_else(|p| p.into_inner());
+        guard.plans.clear();
+        guard.insertion_order.clear();
+    }
+}
+
+#[cfg(feature = "verif")]
+impl SourceBlockEncodingPlan {
+    /// Like `generate`, with an explicit dense/sparse switch-over threshold.
+    pub fn verif_generate(symbol_count: u16, sparse_threshold: u32) -> SourceBlockEncodingPlan {
+        let symbols = vec![Symbol::new(vec![0]); symbol_count as usize];
+        let (_, ops) = gen_intermediate_symbols(&symbols, 1, sparse_threshold);
+        SourceBlockEncodingPlan {
+            operations: ops.unwrap(),
+            source_symbol_count: symbol_count,
+        }
+    }
+
+    pub fn verif_source_symbol_count(&self) -> u16 {
+        self.source_symbol_count
+    }
+
+    pub fn verif_operation_count(&self) -> usize {
+        self.operations.len()
+    }
+}
+
+#[cfg(feature = "verif")]
+impl SourceBlockEncoder {
+    /// Builds an encoder by solving directly (no plan, no cache) on the matrix back-end selected
+    /// by `sparse_threshold`. Returns None if the solver reports a singular matrix.
+    pub fn verif_new_unplanned(
+        source_block_id: u8,
+        config: &ObjectTransmissionInformation,
+        data: &[u8],
+        sparse_threshold: u32,
+    ) -> Option<SourceBlockEncoder> {
+        let source_symbols = SourceBlockEncoder::create_symbols(config, data);
+        let (intermediate_symbols, _operations) = gen_intermediate_symbols(
+            &source_symbols,
+            config.symbol_size() as usize,
+            sparse_threshold,
+        );
+        Some(SourceBlockEncoder {
+            source_block_id,
+            source_symbols,
+            intermediate_symbols: intermediate_symbols?,
+        })
+    }
+
+    /// The L intermediate symbols C[0..L) in logical order.
+    pub fn verif_intermediate_symbols(&self) -> Vec<Vec<u8>> {
+        let l = num_intermediate_symbols(self.source_symbols.len() as u32) as usize;
+        (0..l)
+            .map(|i| self.intermediate_symbols.get(i).to_vec())
+            .collect()
+    }
+
+    pub fn verif_source_symbol_count(&self) -> usize {
+        self.source_symbols.len()
     }
 }
 
